@@ -22,10 +22,19 @@ pub fn structural(v: &View, vd: &mut Verdict, prop: &str) {
         match &e.kind {
             EvKind::HEnter { actor, inv, .. } => {
                 if let Some((other, s)) = open.get(actor) {
-                    vd.fail(
-                        format!("{prop}/overlap"),
-                        format!("actor {actor}: invocation {inv} entered at {} while invocation {other} (entered at {s}) has not exited", e.stamp),
-                    );
+                    // an abandoned (timed out) invocation never exits: it overlaps only if it
+                    // makes progress after this entry
+                    let progressed = v
+                        .invs
+                        .iter()
+                        .find(|i| i.inv == *other)
+                        .is_some_and(|i| i.steps.iter().any(|st| st.1 > e.stamp) || i.exit.is_some_and(|x| x > e.stamp));
+                    if progressed {
+                        vd.fail(
+                            format!("{prop}/overlap"),
+                            format!("actor {actor}: invocation {inv} entered at {} while invocation {other} (entered at {s}) was still running", e.stamp),
+                        );
+                    }
                 }
                 open.insert(*actor, (*inv, e.stamp));
             }
